@@ -372,7 +372,7 @@ PROPS = {
         },
         "analyze": analyze_generic,
         "oracles": ["rule", "messageConsumes", "errSame", "firstFrom"],
-        "probes": [],
+        "probes": ["guardStopsAtFirstAccept"],
         "rule": ENGINE_RULE,
     },
     "C05": {
